@@ -461,6 +461,10 @@ func gen(seed uint64, tier string) {
 	if tier == "thorough" {
 		n, per = 6000, 12
 	}
+	rv := lp.NewRng(seed*31337 + 5)
+	for i := 0; i < n; i++ {
+		fmt.Println("vmerge " + genV(rv) + " " + genV(rv))
+	}
 	gg := &g{r: lp.NewRng(seed*7919 + 41)}
 	for i := 0; i < n; i++ {
 		a := gg.obj(1 + gg.r.Intn(3))
@@ -651,9 +655,126 @@ func emitted(att *expr.AttributeExpr) ([]*node, string, error) {
 	return out, code, err
 }
 
+// ---- ValidationExpr.Merge (vmerge <V> <V>)
+
+func genV(r *lp.Rng) string {
+	b := func() string {
+		if r.Intn(3) == 0 {
+			return "~"
+		}
+		return strconv.Itoa(r.Intn(9) - 3)
+	}
+	names := []string{"a", "b", "c", "dd"}
+	var sb strings.Builder
+	sb.WriteString("F " + lp.Enc(lp.Pick(r, []string{"", "", "date", "uuid"})) + " P " + lp.Enc(lp.Pick(r, []string{"", "", "^20", "[a-z]+"})) + " E")
+	if r.Intn(3) != 0 {
+		sb.WriteString(" ~")
+	} else {
+		n := r.Intn(3)
+		sb.WriteString(" " + strconv.Itoa(n))
+		for i := 0; i < n; i++ {
+			sb.WriteString(" " + lp.Enc(lp.Pick(r, names)))
+		}
+	}
+	sb.WriteString(" xm " + b() + " m " + b() + " xM " + b() + " M " + b() + " l " + b() + " L " + b())
+	n := r.Intn(4)
+	sb.WriteString(" R " + strconv.Itoa(n))
+	for i := 0; i < n; i++ {
+		sb.WriteString(" " + lp.Enc(lp.Pick(r, names)))
+	}
+	return sb.String()
+}
+
+func parseV(ts []string) (*expr.ValidationExpr, []string, bool) {
+	if len(ts) < 19 || ts[0] != "F" || ts[2] != "P" || ts[4] != "E" {
+		return nil, nil, false
+	}
+	v := &expr.ValidationExpr{Format: expr.ValidationFormat(lp.MustDec(ts[1])), Pattern: lp.MustDec(ts[3])}
+	ts = ts[5:]
+	if ts[0] == "~" {
+		ts = ts[1:]
+	} else {
+		n, _ := strconv.Atoi(ts[0])
+		v.Values = []any{}
+		for _, x := range ts[1 : 1+n] {
+			v.Values = append(v.Values, lp.MustDec(x))
+		}
+		ts = ts[1+n:]
+	}
+	fl := func(s string) *float64 {
+		if s == "~" {
+			return nil
+		}
+		f, _ := strconv.ParseFloat(s, 64)
+		return &f
+	}
+	in := func(s string) *int {
+		if s == "~" {
+			return nil
+		}
+		i, _ := strconv.Atoi(s)
+		return &i
+	}
+	if len(ts) < 14 || ts[0] != "xm" || ts[12] != "R" {
+		return nil, nil, false
+	}
+	v.ExclusiveMinimum, v.Minimum, v.ExclusiveMaximum, v.Maximum, v.MinLength, v.MaxLength = fl(ts[1]), fl(ts[3]), fl(ts[5]), fl(ts[7]), in(ts[9]), in(ts[11])
+	n, _ := strconv.Atoi(ts[13])
+	for _, x := range ts[14 : 14+n] {
+		v.Required = append(v.Required, lp.MustDec(x))
+	}
+	return v, ts[14+n:], true
+}
+
+func showV(v *expr.ValidationExpr) string {
+	fl := func(f *float64) string {
+		if f == nil {
+			return "~"
+		}
+		return strconv.FormatFloat(*f, 'f', -1, 64)
+	}
+	in := func(i *int) string {
+		if i == nil {
+			return "~"
+		}
+		return strconv.Itoa(*i)
+	}
+	out := []string{"F", lp.Enc(string(v.Format)), "P", lp.Enc(v.Pattern), "E"}
+	if v.Values == nil {
+		out = append(out, "~")
+	} else {
+		out = append(out, strconv.Itoa(len(v.Values)))
+		for _, x := range v.Values {
+			out = append(out, lp.Enc(x.(string)))
+		}
+	}
+	out = append(out, "xm", fl(v.ExclusiveMinimum), "m", fl(v.Minimum), "xM", fl(v.ExclusiveMaximum), "M", fl(v.Maximum), "l", in(v.MinLength), "L", in(v.MaxLength),
+		"R", strconv.Itoa(len(v.Required)))
+	for _, r := range v.Required {
+		out = append(out, lp.Enc(r))
+	}
+	return strings.Join(out, " ")
+}
+
 func run(ts []string) string {
 	if len(ts) < 2 {
 		return "bad-op"
+	}
+	if ts[0] == "vmerge" {
+		v, rest, ok := parseV(ts[1:])
+		if !ok {
+			return "bad-op"
+		}
+		o, rest, ok := parseV(rest)
+		if !ok || len(rest) != 0 {
+			return "bad-op"
+		}
+		before := showV(o)
+		v.Merge(o)
+		if showV(o) != before {
+			return "merged-argument-changed " + showV(o)
+		}
+		return "merged " + showV(v)
 	}
 	t := &toks{t: ts[1:]}
 	att := t.att()
